@@ -51,3 +51,19 @@ Theorem C16_declared_status_is_persisted : forall c cur next run l s,
              exists t0, o_trace s' = TStore (Some l) (stamp c (o_w s) upd) ROk :: t0 :: o_trace s.
 Proof. exact updater_ff. Qed.
 Print Assumptions C16_declared_status_is_persisted.
+
+(* ... and through the whole step consumer: the event of the run's current version, the run not stopped, the step function
+   returning a declared destination z that is not a skip ==> the handler returns nil (the event is then acknowledged) and the
+   run is written at z with the object the function left behind, Running or (terminal) Completed, version + 1 *)
+Theorem C16_step_declared_status_is_persisted : forall c inst u st b n e r seed tr mark z s,
+  ff s -> lookup_run (o_w s) (e_run e) = Some r -> r_run r = e_run e -> r_ver r = e_ver e -> rs_stopped (r_state r) = false ->
+  r_obj r = OVal seed tr -> r_status r = st ->
+  eval_beh b (att_get (w_att (o_w s)) (ufun_code (UFStep st)) (e_run e)) seed = (mark, ARet z) ->
+  skip_status z = false -> validate_transition (ec_graph c) st z = true ->
+  exists s' w1, step_handler c inst u st (invoke c (UFStep st) b st) n e s = (Ok tt, s') /\ ff s' /\
+    w_recs w1 = w_recs (o_w s) /\ w_now w1 = w_now (o_w s) /\
+    o_w s' = do_store c w1
+      (bump (mkRecord (r_wf r) (r_fid r) (r_run r) (if is_terminal (ec_graph c) z then RSCompleted else RSRunning) z
+                      (if mark then mark_obj (r_obj r) st else r_obj r) (r_created r) (w_now (o_w s)) (r_ver r) (r_reason r) z)).
+Proof. exact step_declared_status_persisted. Qed.
+Print Assumptions C16_step_declared_status_is_persisted.
